@@ -1,20 +1,56 @@
-import json,glob,re,sys
-log=open(sys.argv[1]).read()
-rows=[]
-for d in sorted(glob.glob('/verif/seeded/*/')):
-    id=d.rstrip('/').split('/')[-1]
-    if not re.match(r'C\d\d-',id): continue
-    m=json.load(open(d+'meta.json'))
-    r=re.findall(r'^SEEDED %s property=(\S+) tier=(\S+) caught=(\S+) exit=(\d+)(.*)$'%re.escape(id),log,re.M)
-    if not r: continue
-    prop,tier,caught,ex,keys=r[-1]
-    keys=[k[4:] for k in keys.split() if k.startswith('key=')]
-    m['verif']={"confirmed":"./seedtest.sh seeded/%s quick --confirm: compiles, unedited suite passes with the change, demonstration fails with it and passes without it"%id,
-                "ran":"./seedtest.sh seeded/%s %s (scratch worktree of /repo HEAD + patch, ./check %s %s in side mode)"%(id,tier,prop,tier),
-                "caught":caught=="yes","exit":int(ex),"violation_keys":keys}
-    json.dump(m,open(d+'meta.json','w'),indent=1)
-    rows.append((id,prop,m['summary'].split('. ')[0][:150],caught,', '.join(keys)[:140]))
-print("| id | what the change does (first sentence of its meta.json) | caught by `./check %s quick` | first violation keys |".replace('%s','<P>'))
+#!/usr/bin/env python3
+"""Builds the table of DESIGN.md §8.6 and the `verif` block of every seeded/<id>/meta.json from logs of seedtest.sh runs.
+
+usage: tools/mktable.py <log> [<log> ...]      (lines "SEEDED <id> property=<P> tier=<t> caught=yes|no exit=<n> key=...")
+A line whose property is the seed's own property is the result of its own check (the last such line counts); lines
+with another property (SEED_PROP=<P> ./seedtest.sh ...) are recorded as results of neighbouring checks.
+"""
+import json, glob, re, sys, os
+
+root = os.path.dirname(os.path.dirname(os.path.abspath(__file__)))
+log = "\n".join(open(f).read() for f in sys.argv[1:])
+rows, own_yes, total, only_other, nowhere = [], 0, 0, [], []
+def num(d):
+    m = re.match(r'.*/(C\d\d)-(\d+)/$', d)
+    return (m.group(1), int(m.group(2)))
+for d in sorted(glob.glob(root + '/seeded/C*-*/'), key=num):
+    sid = d.rstrip('/').split('/')[-1]
+    m = json.load(open(d + 'meta.json'))
+    prop = m['property']
+    own, others = None, {}
+    for p, tier, caught, ex, keys in re.findall(r'^SEEDED %s property=(\S+) tier=(\S+) caught=(\S+) exit=(\d+)(.*)$' % re.escape(sid), log, re.M):
+        ks = [k[4:] for k in keys.split() if k.startswith('key=')]
+        rec = {"check": "./check %s %s" % (p, tier), "caught": caught == "yes", "exit": int(ex), "violation_keys": ks}
+        if p == prop:
+            own = rec
+        else:
+            others[p] = rec
+    if own is None:
+        continue
+    total += 1
+    v = {"confirmed": "./seedtest.sh seeded/%s quick --confirm: compiles, unedited suite passes with the change, demonstration fails with it and passes without it" % sid,
+         "ran": "./seedtest.sh seeded/%s (scratch worktree of /repo HEAD + patch, %s in side mode)" % (sid, own["check"]),
+         "caught": own["caught"], "exit": own["exit"], "violation_keys": own["violation_keys"]}
+    if others:
+        v["neighbouring_checks"] = others
+    m['verif'] = v
+    json.dump(m, open(d + 'meta.json', 'w'), indent=1, ensure_ascii=False)
+    res = "yes" if own["caught"] else ("inconclusive (exit 2)" if own["exit"] == 2 else "no")
+    keys = ', '.join(own["violation_keys"])[:120]
+    by = [p for p, r in others.items() if r["caught"]]
+    if own["caught"]:
+        own_yes += 1
+    elif by:
+        only_other.append((sid, by))
+        res += "; " + ", ".join("`./check %s quick`: yes" % p for p in by)
+        keys = ', '.join(others[by[0]]["violation_keys"])[:120]
+    else:
+        nowhere.append(sid)
+    rows.append((sid, m['summary'].split('. ')[0][:150].replace('|', '/'), res, keys.replace('|', '/')))
+print("| id | what the change does (first sentence of its meta.json) | caught by `./check <P> quick` | first violation keys |")
 print("|---|---|---|---|")
-for id,prop,summ,c,k in rows:
-    print("| %s | %s | %s | %s |"%(id,summ.replace('|','/'),c,k.replace('|','/')))
+for r in rows:
+    print("| %s | %s | %s | %s |" % r)
+print()
+print("%d of %d are caught by the quick tier of their own property's check; %d more only by a neighbouring property's check (%s); not caught: %s." % (
+    own_yes, total, len(only_other), '; '.join("%s by %s" % (s, '/'.join(b)) for s, b in only_other), ', '.join(nowhere) or 'none'))
